@@ -151,8 +151,64 @@ ALPHABET = {
                                                              gt.conform7(X, Y, Z, t1, v), gt.conform14(X, Y, Z, d2, t1, v)))(t + d1)),
                               [gc.itrf2000_to_gda94, D30, D85, A(V33)]),
     'precise_inst_ht_sorted': lambda: (gsv.precise_inst_ht, [[92.0, 91.0, 90.0, 89.0], 0.5, 0.1]),
+    # --- array-valued observations (the formulas are elementwise; the arrays belong to the caller)
+    'phase_refractivity_arr': lambda: (gsv.phase_refractivity, [0.85, A([20.0, 25.0]), A([1013.25, 990.0]), A([10.0, 12.0])]),
+    'group_refractivity_arr': lambda: (gsv.group_refractivity, [0.85, A([20.0, 25.0]), A([1013.25, 990.0]), A([10.0, 12.0])]),
+    'group_refractivity': lambda: (gsv.group_refractivity, [0.85, 20.0, 1013.25, 10.0, 450]),
 }
 NAMES = sorted(ALPHABET)
+
+# --- objects that a caller shares between calls / threads (read-only sharing of input data is normal use): a call may not
+# write into the object it is asked to convert, not even temporarily
+SHARED = {
+    'geo2d': lambda: gco.CoordGeo(ga.DECAngle(-23.67), ga.DECAngle(133.88), None, 588.1),
+    'geo3d': lambda: gco.CoordGeo(ga.DMSAngle(-23, 40, 12.5), ga.DMSAngle(133, 52, 48.0), 603.2, 588.1),
+    'cart': lambda: gco.CoordCart(X, Y, Z, 12.5),
+    'tm': lambda: gco.CoordTM(53, 386352.3979, 7381850.7689, 603.3, None),
+    'tderived': lambda: gc.itrf2008_to_gda94 + D30,
+    'vcv': lambda: A(V33),
+    'obs': lambda: [89.0, 92.0, 90.0, 91.0],
+    'dms': lambda: ga.DMSAngle(-0, 30, 15.25),
+    'parr': lambda: A([1013.25, 990.0]),
+}
+SHARED_CALLS = {
+    'geo2d.cart': ('geo2d', lambda o: o.cart()),
+    'geo2d.tm': ('geo2d', lambda o: o.tm()),
+    'geo2d.notation': ('geo2d', lambda o: o.notation(ga.DMSAngle)),
+    'geo3d.cart': ('geo3d', lambda o: o.cart()),
+    'geo3d.tm': ('geo3d', lambda o: o.tm()),
+    'geo3d.notation': ('geo3d', lambda o: o.notation(ga.HPAngle)),
+    'cart.geo': ('cart', lambda o: o.geo()),
+    'cart.tm': ('cart', lambda o: o.tm()),
+    'tm.geo': ('tm', lambda o: o.geo()),
+    'tm.cart': ('tm', lambda o: o.cart()),
+    'tderived.c14': ('tderived', lambda t: gt.conform14(X, Y, Z, D85, t, A(V33))),
+    'tderived.c7': ('tderived', lambda t: gt.conform7(X, Y, Z, t, A(V33))),
+    'tderived.neg': ('tderived', lambda t: -t),
+    'tderived.add': ('tderived', lambda t: t + D85),
+    'vcv.c7': ('vcv', lambda v: gt.conform7(X, Y, Z, gc.gda94_to_gda2020, v)),
+    'vcv.c14': ('vcv', lambda v: gt.conform14(X, Y, Z, D30, gc.itrf2008_to_gda94, v)),
+    'vcv.cart2local': ('vcv', lambda v: gs.vcv_cart2local(v, -23.67, 133.88)),
+    'vcv.ellipse': ('vcv', lambda v: gs.error_ellipse(v)),
+    'obs.inst_ht': ('obs', lambda l: gsv.precise_inst_ht(l, 0.5, 0.1)),
+    'dms.conv': ('dms', lambda a: (a.hp(), a.dec(), a.ddm(), -a, a + a, str(a))),
+    'dms.geo2grid': ('dms', lambda a: gv.geo2grid(a, ga.DECAngle(133.88))),
+    'parr.phase': ('parr', lambda p: gsv.phase_refractivity(0.85, A([20.0, 25.0]), p, A([10.0, 12.0]))),
+    'parr.group': ('parr', lambda p: gsv.group_refractivity(0.85, A([20.0, 25.0]), p, A([10.0, 12.0]))),
+}
+SHARED_NAMES = sorted(SHARED_CALLS)
+_LIVE = {}          # shared objects of the current execution (built before the calls / threads start)
+
+
+def live(objname):
+    if objname not in _LIVE:
+        _LIVE[objname] = SHARED[objname]()
+    return _LIVE[objname]
+
+
+def shared_changed():
+    """names of shared objects that no longer equal a freshly built one"""
+    return sorted(n for n, o in _LIVE.items() if snp.canon(o) != snp.canon(SHARED[n]()))
 # the seam: calls that reach a Transformation / TransformationSD / module-level table, used for schedule exploration
 SEAM = ['conform7_vcv', 'conform7_rev_vcv', 'conform14_apm_vcv', 'conform14_apm_rev', 'conform14_itrf08_vcv',
         'conform14_itrf08_rev', 'add_date', 'add_date_apm', 'neg_t', 'atrf2014_to_gda2020_vcv', 'gda2020_to_atrf2014_vcv',
@@ -168,7 +224,11 @@ HELD = []       # (call name, result object, canonical form at return time): res
 
 def execute(name):
     """one real call: returns (canonical result, list of argument violations)"""
-    fn, args = ALPHABET[name]()
+    if name in SHARED_CALLS:
+        objname, fn = SHARED_CALLS[name]
+        args = [live(objname)]
+    else:
+        fn, args = ALPHABET[name]()
     before = [snp.canon(a) for a in args]
     try:
         r = fn(*args)
@@ -223,7 +283,7 @@ _REF = {}
 
 def references():
     if not _REF:
-        for n in NAMES:
+        for n in NAMES + SHARED_NAMES:
             _REF[n] = in_child(lambda n=n: execute(n)[0])
     return _REF
 
@@ -245,6 +305,10 @@ def prepare(tier, seed):
 def run_history(hist):
     """executes the calls of hist in order in this process; returns per-step observations"""
     obs = []
+    _LIVE.clear()
+    for n in hist:
+        if n in SHARED_CALLS:
+            live(SHARED_CALLS[n][0])
     for n in hist:
         BAR.take()
         res, changed = execute(n)
@@ -252,6 +316,8 @@ def run_history(hist):
         const_same = snp.snap_constants() == PRISTINE_CONST
         mods = snp.snap_modules()
         stale = [hn for (hn, hr, hc) in HELD[:-1] if snp.canon(hr) != hc]
+        if shared_changed():
+            changed = changed or [0]
         obs.append({'call': n, 'res': res, 'args_changed': changed, 'writes': writes[:6], 'n_writes': len(writes),
                     'const_same': const_same, 'mod_diff': snp.diff_modules(PRISTINE_MODS, mods), 'stale': stale,
                     'state': hash((snp.snap_constants(), tuple(sorted(mods.items()))))})
@@ -262,6 +328,9 @@ def gen_seq(tier, seed):
     depth = 3 if tier == 'thorough' else 2
     for a in NAMES:
         yield {'first': a, 'depth': depth}
+    # histories on ONE shared object: every sequence of calls on the same object up to depth 3
+    for oname in sorted(SHARED):
+        yield {'shared_obj': oname, 'depth': 3}
 
 
 def check_obs(rec, hist, obs, one):
@@ -302,6 +371,25 @@ def ev_seq(case, rec):
         hist = case['history']
         obs = in_child(lambda: run_history(hist))
         check_obs(rec, hist, obs, case)
+        return
+    if 'shared_obj' in case:
+        calls = [n for n in SHARED_NAMES if SHARED_CALLS[n][0] == case['shared_obj']]
+        hists = [[a] for a in calls] + [[a, b] for a in calls for b in calls] + [[a, b, c] for a in calls for b in calls for c in calls]
+
+        def work_shared():
+            return [(h, run_history(h)) for h in hists]
+        for hist, obs in in_child(work_shared) if not dirty_modules() else [(h, in_child(lambda h=h: run_history(h))) for h in hists]:
+            rec.transitions += len(hist)
+            rec.nontriv(tuple(hist))
+            for o in obs:
+                rec.state(o['state'])
+            bad = False
+            for k in range(len(hist)):
+                bad = check_obs(rec, hist[:k + 1], obs[:k + 1], {'history': hist}) or bad
+                if bad:
+                    break
+            rec.outcome('bad' if bad else 'pure')
+        rec.sample({'shared_obj': case['shared_obj'], 'histories': len(hists)})
         return
     a, depth = case['first'], case['depth']
 
@@ -407,6 +495,17 @@ def gen_sched(tier, seed):
     for a, b in (('vcv_cart2local_p2', 'vcv_cart2local'), ('conform14_itrf08_vcv', 'add_date'), ('k_val95', 'conform7_vcv'),
                  ('conform14_user_alias', 'conform14_apm_vcv')):
         yield {'threads': [[a, a], [b]], 'bound': 1}
+    # two threads working on the SAME caller-owned object
+    quick_objs = ('geo2d', 'tderived', 'vcv', 'obs', 'tm', 'parr')
+    for oname in sorted(SHARED):
+        if tier != 'thorough' and oname not in quick_objs:
+            continue
+        calls = [n for n in SHARED_NAMES if SHARED_CALLS[n][0] == oname]
+        if tier != 'thorough':
+            calls = calls[:3]
+        for i, a in enumerate(calls):
+            for b in calls[i:]:
+                yield {'threads': [[a], [b]], 'bound': 2 if tier == 'thorough' and oname in ('geo2d', 'tderived') else 1, 'shared': True}
     if tier == 'thorough':
         for a in SEAM[:8]:
             yield {'threads': [[a], ['add_date'], ['conform14_itrf08_vcv']], 'bound': 1}
@@ -427,6 +526,11 @@ def run_schedule_here(threads, files, prefix, opcode, full_snapshot):
     ref = references()
 
     def work():
+        _LIVE.clear()
+        for calls in threads:
+            for n in calls:
+                if n in SHARED_CALLS:
+                    live(SHARED_CALLS[n][0])
         bodies = [(lambda calls=calls: [execute(n) for n in calls]) for calls in threads]
         ex = sched.Execution(bodies, files, prefix, opcode=opcode).run()
         writes = BAR.take()
@@ -452,6 +556,8 @@ def run_schedule_here(threads, files, prefix, opcode, full_snapshot):
                     bad.append(('result-after', n, str(res)[:160]))
         if BAR.take():
             bad.append(('write-after', None))
+        if shared_changed():
+            bad.append(('shared-object-changed', shared_changed()))
         # full snapshot (3 ms): whenever the barrier saw a write, on the default schedule and on every 8th schedule
         if (writes or (full_snapshot and (not prefix or (sum(prefix) + len(prefix)) % 8 == 0))) \
                 and snp.snap_constants() != PRISTINE_CONST:
@@ -464,6 +570,10 @@ def run_schedule_here(threads, files, prefix, opcode, full_snapshot):
 def ev_sched(case, rec):
     threads = case['threads']
     files = traced_files(dirty_modules())
+    if case.get('shared'):
+        # the modules that own / read the shared object get scheduling points too
+        for f in ('geodepy/survey.py', 'geodepy/convert.py') + (('geodepy/angles.py',) if 'dms' in threads[0][0] else ()):
+            files.add(os.path.realpath(os.path.join(REPO, f)))
     opcode = bool(case.get('opcode'))
     if 'schedule' in case:                 # replay of one recorded schedule
         r = run_schedule(threads, files, case['schedule'], opcode)
